@@ -101,7 +101,12 @@ impl Statement {
                 // TODO: Handle array values.
                 if !matches!(rhe, Update { .. }) {
                     if let Some(value) = rhe.value() {
-                        env.add_variable(var, value);
+                        // Only SSA variables have a unique definition. Signals and components
+                        // are not versioned and may be assigned on more than one path, so a
+                        // value assigned to them here says nothing about their other uses.
+                        if var.version().is_some() {
+                            env.add_variable(var, value);
+                        }
                         result = result || meta.value_knowledge_mut().set_reduces_to(value.clone());
                     }
                 }
